@@ -78,6 +78,15 @@ CHECKS["C18"] = dict(
     note=NOTE_COMMON + "The property is value-independent, so the solver's role is to exclude coincidences: a shared sub-object makes a fresh variable appear in the "
          "untouched snapshot and the equality query satisfiable. Outside: longer histories; colour mutations use concrete values; Image pixel data.")
 
+CHECKS["C13"] = dict(
+    text="Color.parse on symbolic strings through the module's own regexes and keyword chain: ALL strings of ASCII letters of each length 3..20 (any case) are proved to "
+         "yield the SVG table value whenever they spell one of the 147 keywords (+transparent, none); all 3/4/6/8-digit hex strings; rgb()/rgba() with symbolic decimal "
+         "digits (clamping, negative), percentages and hsl()/hsla() with symbolic reals against the CSS formulas (hue modulo a turn); getters, setters (clamped, "
+         "only their field), the rgb/bgr/argb/rgba packings, opacity, equality over all 32-bit values (four symbolic 8-bit fields, integer div/mod encoding).",
+    ref="DESIGN.md 4/C13",
+    note=NOTE_COMMON + "Bit-or of symbolic ints only after the solver proves disjoint bit fields on the path. Outside: Color(c.hex)==c and hex strings (C-level %02x), "
+         "hue getter and h/s/l setter round trips, angle units inside hsl().")
+
 NOT_APPLICABLE = {
 }
 
